@@ -113,6 +113,19 @@ CLAIMED['C14'] = dict(
   note='Trusted: the frame formats as written in the checker validators (NXP UM0701-02, CCID, RC-S380), struct semantics. One defect repaired '
        '(truncated response headers raised IndexError/struct.error).',
   technique='finite evaluation of extracted frame expressions against an independent validator + CFG dominance/bounds (ast)')
+CLAIMED['C13'] = dict(
+  category='other',
+  text='For each of the nine concrete driver classes the interprocedural exception-escape analysis, rooted at that class (methods resolve '
+       'through its MRO, the chipset object to the class its init() constructs, transports included), computes every exception class that '
+       'can leave send_cmd_recv_rsp / send_rsp_recv_cmd by explicit raise, re-raise, assert or catalogued library call, keyed by the entry '
+       'statement it leaves through; anything outside the CommunicationError family and IOError is a failed obligation. Status-name and '
+       'error-class mapping tables are checked for agreement (timeout -> TimeoutError, field loss -> BrokenLinkError, default '
+       'TransmissionError) and ContactlessFrontend.exchange is shown to add and swallow nothing. Implicit exceptions (IndexError on empty '
+       'responses) are outside this rule; which class a given status should map to beyond those named is not decided.',
+  design_ref='DESIGN.md section 3 C13',
+  note='Known finding: Chipset.Error from the register preparation of pn53x.Device.send_cmd_recv_rsp (4 keys, one root cause). Three defects '
+       'repaired. Trusted: libusb1/pyserial exception hierarchies as tabulated in nfcsa/model.py.',
+  technique='class-rooted interprocedural exception-escape analysis (ast)')
 NA_REASON = {}
 def main():
     checks = []
